@@ -99,7 +99,7 @@ Theorem C15_owners_nonvacuous :
 Proof. exact owners_example. Qed.
 
 (* concrete witnesses: the state after the fix, and the leak before it (D9') *)
-Theorem C15_owner_overwrite_partial :
+Theorem C15_owner_overwrite_after_fix :
   exists w, orun true 256 200 {| amapw := amap_init; owners := [None; None] |} [OGet 0%nat 101; OGet 0%nat 102; OMove 1%nat 0%nat] = Ok w /\
             held (owners w) = [2] /\ live_tokens (amapw w) = [2] /\ owners w = [None; Some 2].
 Proof. exact overwrite_releases_after_fix. Qed.
